@@ -45,6 +45,14 @@ func calibrate() {
 	calib = map[string]string{}
 	z0, z1 := h.RunFile(model.KwPrint+" 0;", h.Opts{}), h.RunFile(model.KwPrint+" -0;", h.Opts{})
 	model.StrictZero = z0.Status == 0 && z1.Status == 0 && z0.Stdout != z1.Stdout
+	// container syntax: strict when the implementation writes containers exactly as the model does
+	cprog := parenAll([]*model.N{
+		model.Print(model.Arr(model.Num(1), model.Arr(model.Num(2), model.Str("a")), model.Nil(), model.Obj([]string{"k", "j"}, []*model.N{model.Num(1), model.Arr(model.Bool(true))}))),
+		model.Print(model.Arr()), model.Print(model.Obj(nil, nil)), model.Print(model.Arr(model.Str("x"), model.Str("y z"))),
+	})
+	cres := (&model.Machine{}).Run(cprog)
+	cout := h.RunFile(model.Render(cprog), h.Opts{})
+	model.StrictContainers = cout.Status == 0 && cout.Stdout == cres.Stdout()
 	for k, p := range calibProgs {
 		o := h.RunFile(p[0], h.Opts{})
 		if o.Panic == "" && !o.Diverged && o.Stderr != "" {
@@ -86,6 +94,9 @@ func judge(c *fw.Ctx, prog []*model.N, jo judgeOpts) (o h.Outcome, res *model.Re
 	o, res, skipped = judgeSrc(c, src, prog, jo)
 	if !skipped && o.Panic == "" && !o.Diverged && !jo.NoOneLine {
 		judgeOneLine(c, prog, jo, o, res)
+		if res.Err != nil && !strings.Contains(strings.ReplaceAll(src, "\n", ""), "\r") && strings.Count(src, "\"")%2 == 0 {
+			judgeCRLF(c, src, jo, o, res)
+		}
 	}
 	return o, res, skipped
 }
@@ -206,4 +217,28 @@ func parenAll(prog []*model.N) []*model.N {
 // execution is recognised quickly.
 func fuelFor(res *model.Result) int64 {
 	return int64(res.Steps)*400 + 30000
+}
+
+// judgeCRLF runs a failing program saved with CRLF line ends: same output, same diagnostic on the same line.
+func judgeCRLF(c *fw.Ctx, src string, jo judgeOpts, multi h.Outcome, res *model.Result) {
+	for _, l := range strings.Split(src, "\n") {
+		if strings.Count(l, "\"")%2 != 0 {
+			return // a string literal spans a line break: the CR would become part of it
+		}
+	}
+	crlf := strings.ReplaceAll(src, "\n", "\r\n")
+	o := h.RunFile(crlf, h.Opts{Stdin: jo.Stdin, Prefix: jo.Prefix, Fuel: fuelFor(res)})
+	c.Eval(crlf, true)
+	base := fw.Replay{Mode: "file", Program: crlf, Stdin: jo.Stdin, Choices: jo.Prefix, CLI: len(jo.Prefix) == 0, InStdout: o.Stdout, InStderr: o.Stderr, InStatus: o.Status}
+	if abnormal(c, o, "file", crlf, base) {
+		return
+	}
+	if o.Stdout != multi.Stdout || o.Status != multi.Status || o.FirstDiag() != multi.FirstDiag() {
+		r := base
+		r.Sig = c.Check + "|crlf-layout"
+		r.What = "the same program with CRLF line ends prints, fails or reports its line differently"
+		r.Expected = fmt.Sprintf("stdout %q status %d diag %q", multi.Stdout, multi.Status, multi.FirstDiag())
+		r.Observed = fmt.Sprintf("stdout %q status %d diag %q", o.Stdout, o.Status, o.FirstDiag())
+		c.Violate(r)
+	}
 }
